@@ -4,6 +4,8 @@
 //   tree <NM> <op>...   op script against the real actor tree (pid_tree.go), dump after every op
 //   resolve | A ; D | <schedule>   name resolution racing deleteNode under controlled scheduling (E3)
 //   sys <op>...         spawn/watch/stop/restart script on a real started actor system (zz_verif_c09sys.go)
+//   attach top|child <ms>   a PostStart handler spawns a child while the actor's own spawn is held in front of
+//                       its attachment to the tree (zz_verif_c09attach.go; gate inserted by check.py REWRITE)
 package main
 
 import (
@@ -33,6 +35,8 @@ func handle(line string) string {
 		return actor.VerifC09SysCase(f)
 	case "guard":
 		return actor.VerifC09GuardCase(f)
+	case "attach":
+		return actor.VerifC09AttachCase(f)
 	}
 	return "bad-case"
 }
